@@ -142,4 +142,13 @@ PROPS = {
                 "oracle: independent RFC 5261 applier, canonical XML equality",
         "assumptions": ["an <add> whose selector ends in /@name is read as an attribute addition", "pairs whose MPD(t1) is not the document identified by its publishTime are classified as consequences of the C05 finding (stale-base)"],
     },
+    "C15": {
+        "parts": [{"pkg": "livesim", "test": "TestVerifC15", "gen": True}],
+        "clauses": ["C15.a", "C15.b", "C15.c", "C15.d"],
+        "level": "fault_enumeration",
+        "rule": "asset layouts (5 bundled + 4 generated, + 2 negative layouts) x write mode x {separate, shared} metadata root x every subset of the cache files present (<=5 files) x "
+                "one damaged file: every truncation length (every 16th for files > 2 KiB or quick) + the last 32, one flipped byte at every 16th offset, garbage, plain .json, .gz + stale .json; "
+                "each case starts a fresh server and replays the asset's request alphabet; a case is non-trivial when a cache file is missing or damaged",
+        "assumptions": ["each asset is copied alone into a scratch VoD root", "responses are compared byte for byte with a scanning server"],
+    },
 }
